@@ -108,6 +108,32 @@ def cases(mgr, shortcuts):
             lambda a, b: a != b)
         add('.Ite ' + tn, [BOOL, T, T], lambda c, a, b: c.Ite(a, b),
             lambda c, a, b: a if c else b)
+        # infix operators whose receiver is itself a product / sum built
+        # through the manager (n-ary, constant factors in any position)
+        one = (lambda v: v) if T == INT else (lambda v: Fraction(v))
+        for cpos in (0, 1, 2):
+            for cval in (-1, 1, -2, 0):
+                def prod(a, b, cpos=cpos, cval=cval, T=T):
+                    fs = [a, b]
+                    fs.insert(cpos, mgr.Int(cval) if T == INT
+                              else mgr.Real(cval))
+                    return mgr.Times(fs)
+                add('infix unary - on Times/3 [c=%d at %d] %s' % (
+                    cval, cpos, tn), [T, T],
+                    lambda a, b, prod=prod: -prod(a, b),
+                    lambda a, b, cval=cval: -(a * b * cval))
+                add('infix k - Times/3 [c=%d at %d] %s' % (cval, cpos, tn),
+                    [T, T], lambda a, b, prod=prod: 3 - prod(a, b),
+                    lambda a, b, cval=cval: 3 - a * b * cval)
+                add('infix Times/3 * -1 [c=%d at %d] %s' % (cval, cpos, tn),
+                    [T, T], lambda a, b, prod=prod: prod(a, b) * -1,
+                    lambda a, b, cval=cval: -(a * b * cval))
+        add('infix unary - on Plus/3 ' + tn, [T, T],
+            lambda a, b, T=T: -mgr.Plus(a, b, mgr.Int(-1) if T == INT
+                                        else mgr.Real(-1)),
+            lambda a, b: -(a + b - 1))
+        add('infix unary - twice ' + tn, [T], lambda a: -(-a),
+            lambda a: a)
         if T == INT:
             add('infix / Int', [T, T], lambda a, b: a / b,
                 lambda a, b: euclid_div(a, b))
